@@ -79,13 +79,19 @@ def evaluate(ids):
         finally:
             shutil.rmtree(scratch, ignore_errors=True)
         fired = {}
+        lost_ = pipeline.hint_lost_fns(res)
+        all_lost_ = all(f["fn"] in lost_ for fl in res.get("failures", {}).values() for f in fl)
         for prof, fl in res.get("failures", {}).items():
             for f in fl:
+                if f["fn"] in lost_ and all_lost_:
+                    continue   # check.py reports UNDECIDED when every failed obligation sits in a function that lost a hint anchor
                 for p in f["props"]:
                     fired.setdefault(p, set()).add("%s@%s" % (f["name"], f["fn"]))
         meta = json.load(open(os.path.join(d, "meta.json")))
         meta["detected_by"] = {p: sorted(v) for p, v in sorted(fired.items())}
         meta["undecided"] = res.get("undecided")
+        if lost_ and all_lost_ and any(res.get("failures", {}).values()) and not meta["undecided"]:
+            meta["undecided"] = "every failed obligation is in a function that lost a proof-hint anchor (%s)" % ", ".join(sorted(lost_))
         meta["demoted"] = res.get("demoted")
         staked = [fn for fn in res.get("demoted", []) if meta["breaks_property"] in res.get("fn_props", {}).get(fn, [])]
         if staked and not meta["undecided"] and meta["breaks_property"] not in fired:
